@@ -24,7 +24,7 @@ COMPONENTS = {"real": ["ECAgent.Core.Environment.get_agents / get_random_agent /
                        "Agent.has_component", "Model.random", "SpaceWorld (some runs)"],
               "stub": ["component classes and agents are harness-defined; global random / numpy.random are perturbed"]}
 PROBES = ["tag_zero_filter", "template_and_tag", "nobody_matches", "partial_template_match", "returned_list_mutated",
-          "reach_all_members", "same_seed_repeat", "type_nobody_has", "spatial_world", "default_tag_agent"]
+          "reach_all_members", "same_seed_repeat", "type_nobody_has", "spatial_world", "default_tag_agent", "retag_while_resident"]
 TECHNIQUE = "deterministic simulation: filter queries inside seeded add/remove histories vs a list-comprehension reference; bounded reachability over reseeded model generators; ambient RNG perturbation between picks"
 LEVEL_TEXT = ("Seeded search over populations, histories, templates and tag filters; every listing must equal the reference filter "
               "(identity, joining order, fresh list), every pick must be a member, every shuffle a permutation, nothing may "
@@ -76,8 +76,10 @@ def generate(rng, tier):
         r = rng.random()
         if r < 0.22:
             ops.append({"op": "add", "k": rng.randrange(len(pool))})
-        elif r < 0.34:
+        elif r < 0.32:
             ops.append({"op": "remove", "k": rng.randrange(len(pool))})
+        elif r < 0.38:
+            ops.append({"op": "retag", "k": rng.randrange(len(pool)), "tag": rng.choice([0, 1, 2, 7])})
         else:
             tmpl, tag = gen_query(rng)
             kind = rng.choice(["get", "get", "pick", "pick", "shuffle", "reach", "repeat"])
@@ -155,6 +157,14 @@ def execute(sc, ctx):
             residents.remove(hit[0])
             ctx.event("remove", spec["id"])
             shape.append(["rm", len(residents)])
+            continue
+        if kind == "retag":
+            spec = pool[op["k"] % len(pool)]
+            hit = [a for a in residents if a.id == spec["id"]]
+            if hit:
+                hit[0].tag = op["tag"]       # documented: tags may be assigned after initialisation
+                ctx.probe("retag_while_resident")
+                ctx.event("retag", spec["id"], op["tag"])
             continue
         tmpl, tag = op["tmpl"], op["tag"]
         want = ref_filter(tmpl, tag)
